@@ -100,3 +100,178 @@ def GapsOK : List Str → List Str → Bool
   | _ :: _ :: _, _ => false
 
 end DictIO
+
+/-! ## Source documents with quoted strings
+
+  `Src` is a document as the grammar describes it: scalars are written bare or in quotes.  `srcToks` lists
+  its source tokens; `spreadS` lays them out with arbitrary white space; `denSrc` is what the document means.
+  `labelEs` replaces every quoted string by a placeholder word (ids drawn left to right from the counter), which
+  is what the reader's literal-extraction stage must produce: a token tree in the sense above plus a table. -/
+
+namespace DictIO
+
+inductive Lit where
+  | bare (w : Str)
+  | quoted (q : Char) (body : Str)
+  deriving DecidableEq, Repr, Inhabited
+
+inductive Src where
+  | lit (l : Lit)
+  | dict (es : List (Str × Src))
+  | list (xs : List Src)
+  deriving Repr, Inhabited
+
+abbrev SrcEntries := List (Str × Src)
+
+/-- a source token: a word (also the delimiters) or a quoted string -/
+inductive STok where
+  | word (w : Str)
+  | quoted (q : Char) (body : Str)
+  deriving DecidableEq, Repr, Inhabited
+
+def Lit.tok : Lit → STok
+  | .bare w => .word w
+  | .quoted q b => .quoted q b
+
+def STok.text : STok → Str
+  | .word w => w
+  | .quoted q b => q :: b ++ [q]
+
+mutual
+  def srcToksV : Src → List STok
+    | .lit l => [l.tok]
+    | .dict es => .word ['{'] :: srcToksEs es ++ [.word ['}']]
+    | .list xs => .word ['('] :: srcToksXs xs ++ [.word [')']]
+  def srcToksEs : SrcEntries → List STok
+    | [] => []
+    | (k, .lit l) :: es => .word k :: l.tok :: .word [';'] :: srcToksEs es
+    | (k, .dict d) :: es => .word k :: .word ['{'] :: srcToksEs d ++ [.word ['}']] ++ srcToksEs es
+    | (k, .list l) :: es => .word k :: .word ['('] :: srcToksXs l ++ [.word [')'], .word [';']] ++ srcToksEs es
+  def srcToksXs : List Src → List STok
+    | [] => []
+    | v :: xs => srcToksV v ++ srcToksXs xs
+end
+
+/-- lay source tokens out: `gaps[i]` in front of token `i`, `tail` at the end -/
+def spreadS (ts : List STok) (gaps : List Str) (tail : Str) : Str := spread (ts.map STok.text) gaps tail
+
+/-- what a written scalar means: a bare word is typed by the table; a quoted string is typed when its content
+    spells a number, boolean or none, and is its content otherwise -/
+def Lit.den : Lit → Scalar
+  | .bare w => parseValue w
+  | .quoted _ b => match parseValue b with
+    | .str _ => .str b
+    | x => x
+
+mutual
+  def denSrcV : Src → Val
+    | .lit l => .leaf l.den
+    | .dict es => .dict (denSrcEs es [])
+    | .list xs => .list (denSrcXs xs)
+  def denSrcEs : SrcEntries → Entries → Entries
+    | [], acc => acc
+    | (k, v) :: es, acc =>
+      match keyOfScalar (parseKey k) with
+      | some key => denSrcEs es (setKey key (denSrcV v) acc)
+      | none => denSrcEs es acc
+  def denSrcXs : List Src → List Val
+    | [] => []
+    | v :: xs => denSrcV v :: denSrcXs xs
+end
+
+/-- placeholder word of literal number `i` -/
+def litPh (i : Nat) : Str := kwLit ++ padSix i
+
+/-- state of the labelling: the counter and the literal table built so far -/
+structure LabelSt where
+  counter : Counter
+  lits : Tbl Str := []
+
+def LabelSt.fresh (st : LabelSt) (body : Str) : Nat × LabelSt :=
+  let (i, c) := Counter.next Gen.counterLimit st.counter
+  (i, { counter := c, lits := st.lits.set i body })
+
+mutual
+  /-- replace quoted strings by placeholder words, in document order; result is a token tree (a `Val`) -/
+  def labelV (st : LabelSt) : Src → LabelSt × Val
+    | .lit (.bare w) => (st, .leaf (.str w))
+    | .lit (.quoted _ b) => let (i, st') := st.fresh b; (st', .leaf (.str (litPh i)))
+    | .dict es => let (st', es') := labelEs st es; (st', .dict es')
+    | .list xs => let (st', xs') := labelXs st xs; (st', .list xs')
+  def labelEs (st : LabelSt) : SrcEntries → LabelSt × Entries
+    | [] => (st, [])
+    | (k, v) :: es =>
+      let (st1, v') := labelV st v
+      let (st2, es') := labelEs st1 es
+      (st2, (.str k, v') :: es')
+  def labelXs (st : LabelSt) : List Src → LabelSt × List Val
+    | [] => (st, [])
+    | v :: xs =>
+      let (st1, v') := labelV st v
+      let (st2, xs') := labelXs st1 xs
+      (st2, v' :: xs')
+end
+
+/-- the source tokens with every quoted string replaced by its placeholder word (same ids as `labelEs`) -/
+def labelToks (st : LabelSt) : List STok → LabelSt × List Str
+  | [] => (st, [])
+  | .word w :: ts => let (st', r) := labelToks st ts; (st', w :: r)
+  | .quoted _ b :: ts => let (i, st1) := st.fresh b; let (st2, r) := labelToks st1 ts; (st2, litPh i :: r)
+
+/-- a bare word of a source document: a word token that is no placeholder look-alike, has no quote, no `$`,
+    no backslash, and no comment marker -/
+def isSrcWord (w : Str) : Bool :=
+  isWordTok w && !isPhTok w && !isInfix kwLit w && !isInfix kwExpr w &&
+  w.all (fun c => !isQuote c && c != '$' && c != '\\') && !isInfix ['/', '/'] w && !isInfix ['/', '*'] w &&
+  !(w.head? == some '#')
+
+/-- a quoted string of a source document: single line, does not contain its own quote character, is no
+    expression (`"…$…"`), and contains no comment marker or reserved word -/
+def isSrcQuoted (q : Char) (b : Str) : Bool :=
+  isQuote q && !b.contains q && b.all (fun c => !isLineBreak c && c != '$') &&
+  !isInfix ['/', '/'] b && !isInfix ['/', '*'] b && !isInfix kwLit b && !isInfix kwExpr b &&
+  !isInfix "COMMENT".toList b && !isInfix "INCLUDE".toList b
+
+def Lit.ok : Lit → Bool
+  | .bare w => isSrcWord w
+  | .quoted q b => isSrcQuoted q b
+
+mutual
+  /-- well-formed source document; `depth` = length of the key path so far (leaf paths must stay ≤ 10) -/
+  def SrcWFV (depth : Nat) : Src → Bool
+    | .lit l => l.ok && depth ≤ 10
+    | .dict es => SrcWFEs (depth + 1) es
+    | .list xs => SrcWFXs (depth + 1) xs
+  def SrcWFEs (depth : Nat) : SrcEntries → Bool
+    | [] => true
+    | (k, v) :: es => isSrcWord k && (keyOfScalar (parseKey k)).isSome && SrcWFV depth v && SrcWFEs depth es
+  def SrcWFXs (depth : Nat) : List Src → Bool
+    | [] => true
+    | v :: xs => SrcWFV depth v && SrcWFXs depth xs
+end
+
+/-- admissible layout of source tokens: gaps are white space without line-break surprises inside tokens, and two
+    adjacent tokens that are not delimiters are separated by at least one white-space character -/
+def isDelimSTok : STok → Bool
+  | .word w => isDelimTok w
+  | .quoted _ _ => false
+
+def GapsOKS : List STok → List Str → Bool
+  | [], _ => true
+  | [_], g :: _ => g.all isWs
+  | [_], [] => true
+  | t :: u :: ts, g :: g' :: gs =>
+    g.all isWs && (isDelimSTok t || isDelimSTok u || !g'.isEmpty) && GapsOKS (u :: ts) (g' :: gs)
+  | _ :: _ :: _, _ => false
+
+/-- the stages of `parseNative` after the comment/include stages, on one text block: newline removal, literal
+    extraction, expression extraction, tokenizing, scanning, literal re-insertion -/
+def parseBlock (c : Counter) (block : Str) : Except ParseErr (Entries × Counter) := do
+  let block := strip (block.map fun ch => if ch == '\n' then ' ' else ch)
+  let (st, block) ← lexLiteralsFuel (block.length + 1) { counter := c } none block
+  let (st, block) := lexExpressions st block
+  let es ← parseDictToks true [] (levels 0 (tokenize block)) []
+  let es ← insertLiterals st.lits es
+  pure (es, st.counter)
+
+end DictIO
